@@ -82,6 +82,11 @@ def run(tier, seed, replay=None):
                 if b['order'] < 2:
                     continue
                 kf = [float(x) for x in b['knots']]
+                # a tolerance only means something when it is well above the floating-point resolution of the knots
+                # (the library computes t +- tol and periodic wraps in floating point): rescale the knots otherwise
+                import math
+                if tolf < 256 * math.ulp(max(abs(v) for v in kf)):
+                    continue
                 try:
                     basis = BSplineBasis(b['order'], kf, b['periodic'])
                 except ValueError:
@@ -95,6 +100,11 @@ def run(tier, seed, replay=None):
                             if rng.random() < 0.35:
                                 tf = float(x) + sg * float(f) * tolf
                                 if abs(C.fr(tf) - x) in (tol,):
+                                    continue
+                                # the implementation compares t +- tol in floating point: stay clear of the tolerance boundary
+                                # by a few ulp, otherwise rounding (not the tolerance) decides the comparison
+                                import math
+                                if abs(abs(C.fr(tf) - x) - tol) <= 4 * C.fr(math.ulp(max(abs(float(x)), abs(tf), 1e-300))):
                                     continue
                                 pts.append((x, f, sg, tf))
                 if not pts:
@@ -173,22 +183,78 @@ def run(tier, seed, replay=None):
     lines = []
     vmeta = []
     for atol in [1e-12, 1e-8, 1e-5, 1e-2]:
-        for rtol in [0.0, 0.0, 1e-6]:
+        for rtol in [0.0, 0.0, 1e-6, 1e-3]:
             for _ in range(6 if tier == 'quick' else 60):
-                base = [[float(Fr(rng.randint(1, 40), 4)) for _ in range(rng.choice([2, 3]))] for _ in range(4)]
+                base = [[float(Fr(rng.randint(-40, 40), 4)) for _ in range(rng.choice([2, 3]))] for _ in range(4)]
                 pts = []
                 for p_ in base:
                     pts.append(list(p_))
-                    for fac in (0.5, 2.0, 10.0):
+                    for fac in ((0.5, 2.0, 10.0) if rng.random() < 0.5 else (0.25, 0.5, 40.0)):
                         q = list(p_)
                         q[rng.randrange(len(q))] += fac * atol * rng.choice([-1, 1])
                         pts.append(q)
                 rng.shuffle(pts)
                 pts = [p_ for p_ in pts if len(p_) == len(pts[0])]
+                # skip configurations in which a stored coordinate sits on the edge of a look-up window up to rounding
+                # (there the floating-point division in _bounds, not the tolerance, decides)
+                def _bounds(key):
+                    k, a, r = C.fr(key), C.fr(atol), C.fr(rtol)
+                    if k >= a:
+                        return (k - a) / (1 + r), (k + a) / (1 - r)
+                    if k <= -a:
+                        return (k - a) / (1 - r), (k + a) / (1 + r)
+                    return (k - a) / (1 - r), (k + a) / (1 - r)
+                tie = False
+                for q_ in pts:
+                    for st in pts:
+                        for kq, vs in zip(q_, st):
+                            lo_, hi_ = _bounds(kq)
+                            v_ = C.fr(vs)
+                            if min(abs(v_ - lo_), abs(v_ - hi_)) <= Fr(1, 10 ** 9) * max(1, abs(v_)) * C.fr(atol) * 10 ** 3:
+                                tie = True
+                if tie:
+                    continue
+                # which of several matching stored vertices is returned is not specified (the library iterates a set):
+                # keep only configurations in which every query matches at most one stored vertex
+                stored, amb = [], False
+                for q_ in pts:
+                    m_ = [st for st in stored if all(_bounds(kq)[0] <= C.fr(vs) < _bounds(kq)[1] for kq, vs in zip(q_, st))]
+                    if len(m_) > 1:
+                        amb = True
+                    if not m_:
+                        stored.append(q_)
+                if amb:
+                    continue
                 vd = VertexDict(rtol=rtol, atol=atol)
                 ids = []
                 for p_ in pts:
                     ids.append(vd.setdefault(np.array(p_), len(vd._keys)))
+                # L2 (no model): a stored vertex is found again; points within atol/2 are one vertex, points clearly
+                # farther apart (3 * (atol + rtol * |v|) in some coordinate) are distinct
+                def _rel(p_, q_):
+                    if max(abs(a_ - b_) for a_, b_ in zip(p_, q_)) <= 0.5 * atol:
+                        return 'within'
+                    if any(abs(a_ - b_) > 3 * (atol + rtol * max(abs(a_), abs(b_))) for a_, b_ in zip(p_, q_)):
+                        return 'far'
+                    return 'gray'
+                # the pair assertions presume well separated clusters (identification by tolerance is not transitive):
+                # they are made only when no pair of the set is in the gray zone between "within" and "clearly farther"
+                clustered = all(_rel(p_, q_) != 'gray' for i_, p_ in enumerate(pts) for q_ in pts[:i_])
+                for i_, p_ in enumerate(pts):
+                    evals += 1
+                    try:
+                        if vd[np.array(p_)] != ids[i_]:
+                            V.failure({'what': 'L2: VertexDict: looking up a point after insertion gives another vertex', 'atol': atol, 'rtol': rtol, 'points': pts, 'point': p_})
+                    except KeyError:
+                        V.failure({'what': 'L2: VertexDict: a point that was inserted is not found again (KeyError)', 'atol': atol, 'rtol': rtol, 'points': pts, 'point': p_})
+                    for j_ in range(i_ if clustered else 0):
+                        q_ = pts[j_]
+                        dmax = max(abs(a_ - b_) for a_, b_ in zip(p_, q_))
+                        far = _rel(p_, q_) == 'far'
+                        if dmax <= 0.5 * atol and ids[i_] != ids[j_]:
+                            V.failure({'what': 'L2: VertexDict: two points within atol/2 of each other are different vertices', 'atol': atol, 'rtol': rtol, 'points': pts, 'pair': [p_, q_]})
+                        if far and ids[i_] == ids[j_]:
+                            V.failure({'what': 'L2: VertexDict: two points clearly farther apart than the tolerance are one vertex', 'atol': atol, 'rtol': rtol, 'points': pts, 'pair': [p_, q_]})
                 lines.append('vd_insert_all %s %s %d %s' % (C.qs(C.fr(rtol)), C.qs(C.fr(atol)), len(pts), ' '.join(C.qlist([C.fr(x) for x in p_]) for p_ in pts)))
                 vmeta.append((atol, rtol, pts, ids))
     outs = C.run_model(lines)
